@@ -272,3 +272,21 @@ Proof.
   destruct (Z.gtb_spec (frame_size (fi_geom fi)) max_alloc); [lia|].
   apply Hd. assumption.
 Qed.
+
+(* ---------------------------------------------------------------- naming per CONVENTIONS *)
+(* rle_roundtrip / rle_stream_valid / rle_independent_reader are the *_partial forms of the
+   unrestricted statements: what is missing is exactly the case zlen enc > 2^32, where the
+   unrestricted statements are false for the code (32-bit offsets). *)
+Definition rle_stream_valid_statement : Prop :=
+  forall g frame enc, geom_ok g -> bytesP frame -> zlen frame = frame_len g ->
+  rle_encode g frame = Ok enc -> annexG_valid (g_ba g * g_spp g) enc = true.
+
+Theorem rle_roundtrip_partial : forall g frame, geom_ok g -> bytesP frame -> zlen frame = frame_len g ->
+  exists enc, rle_encode g frame = Ok enc /\
+    (zlen enc <= 2 ^ 32 -> rle_decode g enc = Ok (frame ++ pad_of g)).
+Proof. exact rle_roundtrip. Qed.
+
+Theorem rle_stream_valid_partial : forall g frame enc, geom_ok g -> bytesP frame -> zlen frame = frame_len g ->
+  rle_encode g frame = Ok enc -> zlen enc <= 2 ^ 32 ->
+  annexG_valid (g_ba g * g_spp g) enc = true.
+Proof. exact rle_stream_valid. Qed.
